@@ -105,6 +105,23 @@ def _ranges3(x2, y2, e2):
     return 0 <= x2 <= y2 <= _n() and _rng("e2")[0] <= e2 <= _rng("e2")[1] and _pin(x2, "x2") and _pin(y2, "y2")
 
 
+def _entering_length(u, qs, qb):
+    """Length of the read when it reaches the adapter stage (as the reference in _run computes it)."""
+    n = _n()
+    lo, hi = 0, n
+    if u > 0:
+        lo = min(u, n)
+    elif u < 0:
+        hi = max(n + u, 0)
+    trimmer = _PARAM.get("trimmer", "quality") if _PARAM.get("quals", True) else None
+    if trimmer is not None:
+        m = hi - lo
+        start = clamp(qs if trimmer == "quality" else 0, 0, m)
+        stop = clamp(m - qb, start, m)
+        lo, hi = lo + start, lo + stop
+    return hi - lo
+
+
 def _part(u, qs, qb, rc):
     """Partition of every shape: 'no5' = nothing was removed, before adapter trimming, from the 5' end of the
     orientation that the row shows; '5removed' = something was (the family of the known defect).  Without --revcomp and
@@ -119,6 +136,11 @@ def _part(u, qs, qb, rc):
     part = _PARAM.get("part")
     if part is None:
         return True
+    if mode == "revcomp" and _entering_length(u, qs, qb) == 0:
+        # the orientation stubs recognise the orientation of a text by its first character: a read that is already empty
+        # when it reaches the adapter stage cannot be given a match "in the reverse complement only" (outside the claim;
+        # the -1 row of such reads is covered by the no_match conditions)
+        return False
     if rc:
         removed5 = u < 0 or qb > 0     # 3' end of the read as given = 5' end of its reverse complement
     else:
@@ -255,6 +277,14 @@ def _run(u, qs, qb, rc, x0, y0, e0, x1, y1, e1, x2, y2, e2):
         return len(p) == 8 and p[0] == want_name and p[2] == "-1" and p[7] == "\n" and p[1] == "\t"
     if len(p) != ROW * len(parts):
         return False                                      # one row per match, nothing else
+    # Two references are followed row by row: the statement (prop_ok) and - only where the partition is '5removed' and the
+    # condition is not 'strict' - the exact output of the listed known defect (sig_ok: the writer slices the re-oriented
+    # input read at the coordinates of the match as they are, i.e. relative to the read the adapter stage received, and
+    # cuts its own copy at the same unshifted coordinates for the next row).  Everything the defect does not touch (row
+    # count, separators, name, error count, adapter name, flag, the match objects) is required in both.
+    accept_known = _PARAM.get("part") == "5removed" and not _PARAM.get("strict")
+    prop_ok, sig_ok = True, accept_known
+    bug_lo, bug_hi = 0, n
     for k, (kind, x, y, e, adapter_name) in enumerate(programme):
         r = p[ROW * k: ROW * (k + 1)]
         if r[23] != "\n" or any(r[i] != "\t" for i in range(1, 23, 2)):
@@ -266,29 +296,43 @@ def _run(u, qs, qb, rc, x0, y0, e0, x1, y1, e1, x2, y2, e2):
         part = parts[k]
         if part.sequence[part.rstart:part.rstop] != aligned or part.errors != e:
             return False                                  # (the stub was shown what the reference expects: harness self-check)
-        left = base_seq[left_lo:left_hi]
         start, stop = int(r[4]), int(r[6])
         if r[0] != want_name or r[2] != str(e) or r[14] != adapter_name:
             return False
-        if r[8] + r[10] + r[12] != left:
-            return False                                  # the three sequence fields concatenate to what was left
-        if len(r[8]) != start or len(r[8]) + len(r[10]) != stop:
-            return False                                  # the middle field is the stretch between the reported coordinates
-        if r[10] != aligned:
-            return False                                  # ... and it is the stretch that was aligned
-        if has_quals:
-            if r[16] + r[18] + r[20] != base_quals[left_lo:left_hi] or len(r[16]) != len(r[8]) or len(r[18]) != len(r[10]):
-                return False                              # qualities split at the same coordinates
-        elif r[16] != "" or r[18] != "" or r[20] != "":
-            return False
         if r[22] != (("1" if rc else "0") if mode == "revcomp" else ""):
+            return False
+        if not has_quals and (r[16] != "" or r[18] != "" or r[20] != ""):
+            return False
+        # -- the statement
+        if prop_ok:
+            left = base_seq[left_lo:left_hi]
+            if r[8] + r[10] + r[12] != left:
+                prop_ok = False                           # the three sequence fields concatenate to what was left
+            elif len(r[8]) != start or len(r[8]) + len(r[10]) != stop:
+                prop_ok = False                           # the middle field is the stretch between the reported coordinates
+            elif r[10] != aligned:
+                prop_ok = False                           # ... and it is the stretch that was aligned
+            elif has_quals and (r[16] + r[18] + r[20] != base_quals[left_lo:left_hi] or len(r[16]) != len(r[8]) or len(r[18]) != len(r[10])):
+                prop_ok = False                           # qualities split at the same coordinates
+        # -- the listed defect, exactly
+        if sig_ok:
+            bug = base_seq[bug_lo:bug_hi]
+            if start != rs or stop != re_ or r[8] != bug[:rs] or r[10] != bug[rs:re_] or r[12] != bug[re_:]:
+                sig_ok = False
+            elif has_quals:
+                bq = base_quals[bug_lo:bug_hi]
+                if r[16] != bq[:rs] or r[18] != bq[rs:re_] or r[20] != bq[re_:]:
+                    sig_ok = False
+        if not prop_ok and not sig_ok:
             return False
         if kind == "before":
             cur_lo = cur_lo + re_
             left_lo = cur_lo
+            bug_lo = bug_lo + re_
         else:
             cur_hi = cur_lo + rs
             left_hi = cur_hi
+            bug_hi = bug_lo + rs
     return True
 
 
@@ -355,6 +399,17 @@ _add("revcomp/two_rounds/ab/rc", {"mode": "revcomp", "rc": True, "shape": ("sing
 for _kinds in (("before", "before"), ("after", "after")):
     _add("plain/two_rounds/%s/u=-1..0" % "".join(k[0] for k in _kinds), {"mode": "plain", "shape": ("single", _kinds), "times": 2, "ranges": _TWO0}, parts=("no5",), timeout=1500, thorough_only=True)
 _add("plain/one_match/after/len6", {"mode": "plain", "shape": ("single", ("after",)), "seq": TEXT, "ranges": _ONE}, parts=("no5",), timeout=1500, thorough_only=True)
+# thorough, family of the listed defect: the other kind sequences, a linked match followed by a single one, the flagged orientation
+for _kinds in (("after", "before"), ("before", "before"), ("after", "after")):
+    _add("plain/two_rounds/%s" % "".join(k[0] for k in _kinds), {"mode": "plain", "shape": ("single", _kinds), "times": 2, "ranges": _TWO5}, parts=("5removed",), timeout=1500, thorough_only=True)
+_add("revcomp/two_rounds/ba/rc", {"mode": "revcomp", "rc": True, "shape": ("single", ("before", "after")), "times": 2, "ranges": dict(_TWO, u=(-1, -1))}, parts=("5removed",), timeout=1500, thorough_only=True)
+_add("revcomp/two_rounds/ab/rc", {"mode": "revcomp", "rc": True, "shape": ("single", ("after", "before")), "times": 2, "ranges": dict(_TWO, u=(-1, -1))}, parts=("5removed",), timeout=1500, thorough_only=True)
+_add("revcomp/linked/front=True/back=True/rc", {"mode": "revcomp", "rc": True, "shape": ("linked", True, True), "ranges": dict(_TWO, u=(-1, -1))}, parts=("5removed",), timeout=1500, thorough_only=True)
+for _kind2 in ("before", "after"):
+    CONDITIONS.append({"name": "plain/linked_then_single/front=True/back=True/%s/5removed" % _kind2, "fn": "check_info3", "timeout": 1500, "thorough_only": True,
+                       "param": {"mode": "plain", "shape": ("linked_then_single", True, True, _kind2), "times": 2, "ranges": dict(_LTS, u=(1, 1)), "part": "5removed"}})
+CONDITIONS.append({"name": "plain/linked_then_single/front=False/back=True/before/5removed", "fn": "check_info3", "timeout": 1500, "thorough_only": True,
+                   "param": {"mode": "plain", "shape": ("linked_then_single", False, True, "before"), "times": 2, "ranges": dict(_TWO, u=(1, 1), e2=(0, 0)), "part": "5removed"}})
 
 
 def describe():
@@ -369,20 +424,20 @@ def describe():
                    "coordinates": "every 0 <= start <= stop <= len(read) symbolic, clamped by the stub into the text it is shown (C01 contract relative to the read the adapter stage received)",
                    "errors": "0..1 symbolic per match (one of the two pinned in two-match shapes)", "revcomp": "orientation flag symbolic (one-match shapes) or per condition",
                    "two-match shapes": "quick: -u -1 (no5; -u 1 under --revcomp with the flag set) resp. -u in {0,1} with 5' quality trimming 0..1 (5removed); thorough: -u -2..0 and 3' quality trimming 0..1"},
-        "outside_bounds": ["reads longer than 6, more than two rounds", "paired-end info files (R1 only is written)", "the sequence/quality columns of the -1 row (the statement only asks for the row)"],
+        "outside_bounds": ["reads longer than 6, more than two rounds", "under --revcomp: matches on a read that is already empty when it reaches the adapter stage (the orientation stubs tell the orientations apart by the first character)", "paired-end info files (R1 only is written)", "the sequence/quality columns of the -1 row (the statement only asks for the row)"],
         "stubs": ["OrientedStub (harness.c16_revcomp): match_to returns an arbitrary match whose coordinates lie inside the text it is shown (C01), programmed for the forward text or for its reverse complement",
                   "quality_trim_index stub: any 0 <= start <= stop <= len (C13 contract)", "nextseq_trim_index stub: any 0 <= index <= len (C13 contract)",
                   "_Linked: real LinkedAdapter with a recording statistics object", "Rec: dnaio.SequenceRecord contract", "RecFile: records print()'s pieces"],
         "assumptions": ["CrossHair's model of str/int/list operations", "only 'Confirmed over all paths' counts as discharged",
-                        "every shape is split into 'no5' (nothing removed from the 5' end of the orientation shown before adapter trimming) and '5removed' (the family of the known defect)"],
+                        "every shape is split into 'no5' (nothing removed from the 5' end of the orientation shown before adapter trimming: the statement must hold) and '5removed' (the family of the listed known defect: every output must be what the statement asks for or, field by field, exactly the output of the listed defect - coordinates relative to the read the adapter stage received applied to the re-oriented input read; anything else is a violation)"],
         "rule": "one CrossHair condition per (plain/revcomp, match shape incl. linked-then-single, --times, trimmer, partition); symbolic: -u, quality-trim indices, orientation flag, match coordinates, error counts. non-trivial = conditions with more than one explored path whose reachability twin is refuted",
     }
 
 
 def known_match(entry, cex):
-    """Family of the known defect: bases were removed from the 5' end (of the orientation shown) before adapter trimming."""
-    if entry.get("family") == "five_prime_removed_before_adapter_trimming":
-        return (cex.get("param") or {}).get("part") == "5removed"
+    """The listed defect is recognised inside the conditions (by its exact output, see _run): a '5removed' condition holds if
+    every output is either what the statement asks for or exactly the output of the listed defect.  A counterexample of any
+    condition is therefore never the listed finding."""
     return False
 
 
